@@ -18,7 +18,7 @@ BASE_NOTE = (
 CLAIMED = {
     "C07": (
         "Lean 4 proof (induction over items/fragments) of encode = spec encoder, decode∘encode = merge, well-formed "
-        "decode; differential correspondence vs pyhap.tlv; reference-codec oracle",
+        "decode; differential correspondence vs pyhap.tlv incl. call histories with refused calls (the codec must be a function of its arguments); reference-codec oracle",
         "Kernel-checked theorems for every item list / byte string about a model of tlv.encode/decode; the model is "
         "compared with the implementation on every length 0..1100 (2100 thorough), boundary multi-item lists and "
         "random decoder inputs each run.",
@@ -29,19 +29,20 @@ CLAIMED = {
 
 CLAIMED["C04"] = (
     "Lean 4 proof (functional induction on the decrypt loop: chunk independence, exactness, promptness, safety under an "
-    "ideal AEAD, fail-closed) + constants regenerated from hap_crypto.py; differential correspondence with a "
+    "ideal AEAD, fail-closed; byte-level nonce packing: injective below 2^64, refuses beyond) + constants regenerated from hap_crypto.py; differential correspondence with a "
     "transparent mock AEAD on both sides; reference-codec oracle with real ChaCha20-Poly1305; protocol-level runs",
     "Kernel-checked theorems for every payload list, every chunking into reads and every adversarial byte stream about "
     "a model of HAPCrypto.decrypt / data_received; model compared with the implementation on boundary, exhaustive "
     "2-cut, byte-at-a-time and random tamper cases each run; AEAD unforgeability is an explicit hypothesis record.",
-    BASE_NOTE + "AEAD correctness/unforgeability are hypotheses (`Correct`, `Ideal`) with proved instances; nonce "
-    "packing, AAD and HKDF labels are validated by testing against harness/ref/frames.py; asyncio delivers no data "
+    BASE_NOTE + "AEAD correctness/unforgeability are hypotheses (`Correct`, `Ideal`) with proved instances; nonce and length "
+    "packing are modelled at byte level (HapModel/Nonce.lean) and tied by the `pack` stream, HKDF labels by regenerated constants and "
+    "the reference codec harness/ref/frames.py; asyncio delivers no data "
     "after close().",
     "DESIGN.md §3 C04",
 )
 
 CLAIMED["C05"] = (
-    "Lean 4 proof (block shape of encrypt, consecutive counters, receiver round trip via the C04 theorems, "
+    "Lean 4 proof (block shape of encrypt, consecutive counters, byte-level frame layout and nonce uniqueness, receiver round trip via the C04 theorems, "
     "last-plaintext and one-write-one-message over all write sequences); differential correspondence of the "
     "transport writes under a mock AEAD; independent reference controller (real ChaCha20-Poly1305) decrypting every "
     "byte after the upgrade on a virtual-clock rig",
